@@ -1023,9 +1023,14 @@ func (s *Scanner) scanFunctionCall(fn *ast.FunctionCall, result *ScanResult) {
 	}
 
 	if risk, found := dangerousFuncs[funcName]; found {
+		// dynamic SQL execution has its own documented class
+		pattern := PatternOutOfBand
+		if funcName == "EXEC" || funcName == "SP_EXECUTESQL" {
+			pattern = PatternDangerousFunc
+		}
 		finding := Finding{
 			Severity:    SeverityCritical,
-			Pattern:     PatternOutOfBand,
+			Pattern:     pattern,
 			Description: "Dangerous function detected: " + fn.Name,
 			Risk:        risk,
 			Suggestion:  "Block dangerous functions or use allowlist",
